@@ -209,6 +209,17 @@ class Parser:
                 else:
                     buf.back(self.expand_macro(buf, tok, False))
                 continue
+            elif type(tok) is defs.VerbatimToken:
+                # NB: test this before looking at tok.txt, the text of
+                # \verb|$| or \verb|{| is not a special token
+                if tok.environ:
+                    # for Environ() entry in Parameters.environment_defs
+                    buf.next()
+                    buf.back(self.expand_verb_env_token(tok))
+                    continue
+                else:
+                    out.append(defs.ActionToken(tok.pos))
+                    out.append(defs.TextToken(tok.pos, tok.txt))
             elif tok.txt == '$' or tok.txt == '\\(':
                 out += self.mathparser.expand_inline_math(buf, tok)
                 continue
@@ -239,15 +250,6 @@ class Parser:
                 out.append(defs.ActionToken(tok.pos))
                 txt = self.parms.special_tokens[tok.txt]
                 out.append(defs.TextToken(tok.pos, txt))
-            elif type(tok) is defs.VerbatimToken:
-                if tok.environ:
-                    # for Environ() entry in Parameters.environment_defs
-                    buf.next()
-                    buf.back(self.expand_verb_env_token(tok))
-                    continue
-                else:
-                    out.append(defs.ActionToken(tok.pos))
-                    out.append(defs.TextToken(tok.pos, tok.txt))
             elif type(tok) is defs.LanguageToken:
                 if self.parms.multi_language:
                     self.parms.change_parser_lang(tok)
@@ -283,6 +285,11 @@ class Parser:
         tok = buf.next()    # skip opening { or [
         out = []
         while tok:
+            if type(tok) is defs.VerbatimToken:
+                # e.g. \verb|}| is not a closing brace
+                out.append(tok)
+                tok = buf.next()
+                continue
             if tok.txt == '{':
                 lev += 1
             if tok.txt == '}':
